@@ -990,6 +990,8 @@ func genFacts(repo string) string {
 	}
 	sb.WriteString("\n]\n")
 	sb.WriteString(genCloseFacts(repo)) // C03: close-path facts (closefacts.go)
+	// (7…) facts for C10 (dispatch guards, typed errors, owner check): c10facts.go
+	sb.WriteString(genFactsC10(repo, fset, load))
 	sb.WriteString("\nend Mieru.Gen.Facts\n")
 	return sb.String()
 }
